@@ -122,6 +122,7 @@ MUTANTS = {
     "c15-offset": ("pulsarbat/pulsar/phase.py", "                frac_str = func(frac + 0.25)\n                f24 = int(frac_str[2:4])", "                frac_str = func(frac + 0.25)\n                f24 = int(frac_str[2:4]) + (1 if frac_str[4:5] == '9' else 0)", ["C15"]),
     "c15-argmin-cycle": ("pulsarbat/pulsar/phase.py", '        approx = np.min(self.cycle, axis, keepdims=True)\n        dt = (self["int"] - approx) + self["frac"]\n        return dt.argmin(axis, out)', '        return self.cycle.argmin(axis, out)', ["C15"]),
     "c15-rpartition": ("pulsarbat/pulsar/phase.py", '    s_count, sep, s_frac = s_float.partition(".")', '    s_count, sep, s_frac = s_float.rpartition(".")', ["C15"]),
+    "c07-no-settle": ("pulsarbat/pulsar/phase.py", "            if np.any(under) or np.any(over):\n                fd += over.astype(float) - under.astype(float)", "            if False:\n                fd += over.astype(float) - under.astype(float)", ["C07"]),
     "c08-phasepol-domain": ("pulsarbat/pulsar/predictor.py", '        polynomial = self["poly"][index](Polynomial([dt, 1]))\n        a = int(polynomial(0) // 1)\n\n        return polynomial - a, pb.Phase(rphase + a)', '        polynomial = self["poly"][index].copy()\n        polynomial.domain -= dt\n        a = int(polynomial(0) // 1)\n\n        return (polynomial - a).convert(), pb.Phase(rphase + a)', ["C08"]),
     "c08-domain": ("pulsarbat/pulsar/predictor.py", "poly=Polynomial(coeffs, domain=[-60, +60]).convert(),", "poly=Polynomial(coeffs, domain=[-30, +30]).convert(),", ["C08"]),
     "c08-f0-minutes": ("pulsarbat/pulsar/predictor.py", "coeffs[1] += float(f0) * 60", "coeffs[1] += float(f0)", ["C08"]),
